@@ -2928,3 +2928,9 @@ def _(m, callee, args):
     kind = re.search(r'new_(\w+)::<', callee).group(1)
     text = {'lower_hex': '%x', 'upper_hex': '%X', 'octal': '%o'}.get(kind, '') % v if kind != 'binary' else bin(v)[2:]
     return ('fmtarg', RStr([ord(c) for c in text]), 'num', {'lower_hex': '0x', 'upper_hex': '0x', 'octal': '0o', 'binary': '0b'}[kind])
+
+
+@model(r'::check_that_field_is_option::<')
+def _(m, callee, args):
+    # the derive's compile-time probe for `#[ts(optional)]` (a function with an empty body, local to the generated method)
+    return ()
